@@ -970,6 +970,65 @@ func specialPair(r *lib.Rng, idx int) *node {
 	return base
 }
 
+var hugeValues = []float64{1e300, -1e300, 3e300, -3e300, 1e308, -1e308, 1e154, -1e154, 1e155, -1e155, 1e160, -1e160, math.MaxFloat64, -math.MaxFloat64}
+
+// a polygon / multipolygon (touching, overlapping, nested members; holes) in which one or two
+// ordinates are huge; a replaced start vertex keeps its ring closed
+func hugePoly(r *lib.Rng) *node {
+	var base *node
+	switch r.Intn(8) {
+	case 0:
+		base = genPoly(r)
+	case 6, 7:
+		// two or three triangles on a tiny grid: members share vertices and edges all the time
+		base = &node{kind: "MY"}
+		for i, k := 0, r.Range(2, 3); i < k; i++ {
+			base.kids = append(base.kids, &node{kind: "Y", rings: [][]xy{genTri(r, -3, 3)}})
+		}
+	case 1, 2:
+		base = genMultiPoly(r)
+	case 3:
+		base = genNestedTouch(r)
+	case 4:
+		base = genTwoTouch(r)
+	default:
+		base = &node{kind: "GC", kids: []*node{genMultiPoly(r), genPoly(r)}}
+	}
+	for n := r.Range(1, 2); n > 0; n-- {
+		total := 0
+		base.walk(func(ps *[]xy, _ bool) { total += len(*ps) })
+		if total == 0 {
+			break
+		}
+		pos, i := r.Intn(total), 0
+		v := hugeValues[r.Intn(len(hugeValues))]
+		isX := r.Bool()
+		base.walk(func(ps *[]xy, _ bool) {
+			for j := range *ps {
+				if i == pos {
+					closed := isClosed(*ps)
+					set := func(k int) {
+						if isX {
+							(*ps)[k].x = v
+						} else {
+							(*ps)[k].y = v
+						}
+					}
+					set(j)
+					if closed && j == 0 {
+						set(len(*ps) - 1)
+					}
+					if closed && j == len(*ps)-1 {
+						set(0)
+					}
+				}
+				i++
+			}
+		})
+	}
+	return base
+}
+
 func genPointNode(r *lib.Rng) *node {
 	if r.Chance(1, 5) {
 		return &node{kind: "P"}
@@ -1285,7 +1344,9 @@ func main() {
 		r := root.Fork()
 		var base *node
 		class := ""
-		switch group % 18 {
+		switch group % 19 {
+		case 18:
+			class, base = "huge_polys", nil
 		case 16:
 			class, base = "two_touch", genTwoTouch(r)
 		case 17:
@@ -1313,6 +1374,14 @@ func main() {
 		}
 		classes[class]++
 		gid := strconv.Itoa(group)
+		if class == "huge_polys" {
+			// areal geometries with one or two huge finite ordinates: products of ordinates overflow.
+			// Observed: no panic anywhere (the model's exact arithmetic is not comparable here)
+			for k := 0; k < 12; k++ {
+				emit(gid+"_"+strconv.Itoa(k), 0, class, "base", hugePoly(r))
+			}
+			continue
+		}
 		if class == "special_pairs" {
 			// one case per (pair of special values, vertex position); no representation changes
 			for k := 0; k < 14; k++ {
